@@ -3,9 +3,18 @@ import wlcheck
 
 PID = 'C14'
 TAGS = set('inv,layout,step'.split(','))
-THEOREMS = []
-IMPORTS = ['LcdbModel.Props.C14']
-TARGETS = ['LcdbModel.Props.C14']
+THEOREMS = [
+    'Lcdb.C14.step_preserves_inv',
+    'Lcdb.C14.steps_preserve_inv',
+    'Lcdb.C14.initial_inv',
+    'Lcdb.C14.compact_preserves_inv',
+    'Lcdb.C14.flush_preserves_inv',
+    'Lcdb.C14.write_preserves_inv',
+    'Lcdb.C01.invCheck_sound',
+    'Lcdb.C01.levelRun_sorted',
+]
+IMPORTS = ['LcdbModel.Props.C14', 'LcdbModel.Props.C01']
+TARGETS = ['LcdbModel.Props.C14', 'LcdbModel.Props.C01']
 
 
 def run(tier):
